@@ -10,11 +10,14 @@
 (*        file answers bit for bit the same                                *)
 (*   C07  the world with its acceleration shortcuts neutralised answers    *)
 (*        bit for bit the same                                             *)
+(*   C08  the document written against a rotated / translated frame (or    *)
+(*        shifted in longitude) answers the same at the moved points       *)
 (*   C13  every answer is finite (or a refusal), no undefined behaviour    *)
 (*   C16  the same file built through the C interface answers the same     *)
 (* For those the specification should range over "all valid world files".  *)
 (* This module describes that set constructively: a document is built one  *)
-(* small decision per action --                                            *)
+(* small decision per action (the state holds catalogue indices only; the  *)
+(* JSON document is rendered at the end, against any frame) --             *)
 (*   Start(type, geometry)  Depths  AddT  AddC  AddG  AddV  Close  Finish  *)
 (* -- from catalogues that hold every feature type, several geometries per *)
 (* type (rectangles, a pentagon, a concave polygon; straight, bent and     *)
@@ -36,16 +39,25 @@ CONSTANTS MaxFeatures        \* most features of a document
 
 VARIABLES sph,      \* spherical coordinate system?
           glob,     \* index into Globals
-          feats,    \* the features closed so far
+          frame,    \* index into Frames(sph): the frame the moved twin of the document is written against
+          feats,    \* the features closed so far (abstract: catalogue indices)
           cur,      \* the feature under construction, or <<>>
           stage,    \* what the feature under construction still lacks
           done
-vars == <<sph, glob, feats, cur, stage, done>>
+vars == <<sph, glob, frame, feats, cur, stage, done>>
 
-(* horizontal unit: km in a Cartesian world, 1/100 degree on the sphere *)
-U(s, km) == IF s THEN Rat(km, 100) ELSE km * Km
-XYg(s, p) == <<U(s, p[1]), U(s, p[2])>>
-Pts(s, ps) == [i \in 1..Len(ps) |-> XYg(s, ps[i])]
+(* frames: Cartesian [sph = FALSE, c, s, n (cos = c/n, sin = s/n), tx, ty (km)]; spherical [sph = TRUE, dlon (degrees)] *)
+IdF(s) == IF s THEN [sph |-> TRUE, dlon |-> 0] ELSE [sph |-> FALSE, c |-> 1, s |-> 0, n |-> 1, tx |-> 0, ty |-> 0]
+Frames(s) == IF s THEN << [sph |-> TRUE, dlon |-> 100], [sph |-> TRUE, dlon |-> 172], [sph |-> TRUE, dlon |-> -184] >>
+             ELSE << [sph |-> FALSE, c |-> 3, s |-> 4, n |-> 5, tx |-> 1000, ty |-> -2000], [sph |-> FALSE, c |-> 0, s |-> 1, n |-> 1, tx |-> 0, ty |-> 0],
+                     [sph |-> FALSE, c |-> 5, s |-> -12, n |-> 13, tx |-> 0, ty |-> 3000] >>
+(* a length, and a point <<x km, y km>>, written against frame f *)
+U(f, km) == IF f.sph THEN Rat(km, 100) ELSE km * Km
+XYg(f, p) == IF f.sph THEN <<Rat(p[1] + 100 * f.dlon, 100), Rat(p[2], 100)>>
+             ELSE <<Rat((f.c * p[1] - f.s * p[2] + f.n * f.tx) * Km, f.n), Rat((f.s * p[1] + f.c * p[2] + f.n * f.ty) * Km, f.n)>>
+Pts(f, ps) == [i \in 1..Len(ps) |-> XYg(f, ps[i])]
+(* azimuth from north, clockwise: a counter-clockwise rotation of the world by phi lowers it by phi *)
+Azimuth(f, a) == IF f.sph \/ (f.c = 1 /\ f.s = 0) THEN a ELSE Sub(a, Un("rad2deg", Bin("atan2", f.s, f.c)))
 
 Types == <<"continental plate", "oceanic plate", "mantle layer", "plume", "subducting plate", "fault">>
 IsArea(t) == t \in {"continental plate", "oceanic plate", "mantle layer"}
@@ -75,8 +87,8 @@ PlumeGeoms == << [c |-> << <<700, 400>>, <<700, 400>> >>, d |-> <<60 * Km, 400 *
 (* depth ranges: <<min, max>>, each a number or AtPoints (a value-at-points surface, built from the polygon) *)
 AtPoints == -1
 DepthKinds == << <<0, 150 * Km>>, <<30 * Km, 400 * Km>>, <<AtPoints, 250 * Km>>, <<0, AtPoints>>, <<AtPoints, AtPoints>> >>
-SurfaceOf(s, g, base, bump, which) ==      \* corners at base, the polygon's first corner and an inside point at base + bump
-  << <<base>>, <<base + bump, <<XYg(s, Polys[g][1]), XYg(s, PolyInside[g])>>>> >>
+SurfaceOf(s, g, base, bump) ==      \* corners at base, the polygon's third corner and an inside point at base + bump
+  << <<base>>, <<base + bump, <<XYg(s, Polys[g][3]), XYg(s, PolyInside[g])>>>> >>     \* (no listed point has a zero coordinate: known finding of C11)
 
 (*************************** model catalogues *******************************)
 Ops == <<"replace", "add", "subtract">>
@@ -138,56 +150,59 @@ Globals == << <<>>,
               @@ ("maximum distance between coordinates" :> 0) >>
 
 (*************************** the machine ************************************)
-Init == sph \in BOOLEAN /\ glob \in 1..Len(Globals) /\ feats = <<>> /\ cur = <<>> /\ stage = "none" /\ done = FALSE
+Init == /\ sph \in BOOLEAN /\ glob \in 1..Len(Globals) /\ frame \in 1..3
+        /\ feats = <<>> /\ cur = <<>> /\ stage = "none" /\ done = FALSE
 
-Name == "f" \o ToString(Len(feats) + 1)
-Base(t, coords) == ("model" :> t) @@ ("name" :> Name) @@ ("coordinates" :> coords)
-                   @@ ("temperature models" :> <<>>) @@ ("composition models" :> <<>>) @@ ("grains models" :> <<>>) @@ ("velocity models" :> <<>>)
-
-StartArea(t, g) == /\ IsArea(t) /\ cur' = Base(t, Pts(sph, Polys[g])) @@ ("gen poly" :> g)
-StartLine(t, g, dp, sg) == /\ IsLine(t)
-                           /\ cur' = Base(t, Pts(sph, Trenches[g])) @@ ("dip point" :> XYg(sph, DipPoints[dp])) @@ ("segments" :> SegSets[sg]) @@ ("gen poly" :> 0)
-StartPlume(g) == LET p == PlumeGeoms[g] IN
-                 cur' = Base("plume", Pts(sph, p.c)) @@ ("cross section depths" :> p.d) @@ ("semi-major axis" :> [i \in 1..Len(p.a) |-> U(sph, p.a[i])])
-                        @@ ("eccentricity" :> p.e) @@ ("rotation angles" :> p.r) @@ ("gen poly" :> 0)
+(* an abstract feature: type, geometry indices <<g, dip point, segment set>>, depth kind, model indices per kind *)
+New(t, g, dp, sg) == [type |-> t, g |-> g, dp |-> dp, sg |-> sg, dk |-> 1, tm |-> <<>>, cm |-> <<>>, gm |-> <<>>, vm |-> <<>>]
 Start == /\ stage = "none" /\ ~done /\ Len(feats) < MaxFeatures
-         /\ \/ \E t \in {"continental plate", "oceanic plate", "mantle layer"}, g \in 1..Len(Polys) : StartArea(t, g)
-            \/ \E t \in {"subducting plate", "fault"}, g \in 1..Len(Trenches), dp \in 1..Len(DipPoints), sg \in 1..Len(SegSets) : StartLine(t, g, dp, sg)
-            \/ \E g \in 1..Len(PlumeGeoms) : StartPlume(g)
-         /\ stage' = "depths" /\ UNCHANGED <<sph, glob, feats, done>>
-
+         /\ \/ \E t \in {"continental plate", "oceanic plate", "mantle layer"}, g \in 1..Len(Polys) : cur' = New(t, g, 0, 0)
+            \/ \E t \in {"subducting plate", "fault"}, g \in 1..Len(Trenches), dp \in 1..Len(DipPoints), sg \in 1..Len(SegSets) : cur' = New(t, g, dp, sg)
+            \/ \E g \in 1..Len(PlumeGeoms) : cur' = New("plume", g, 0, 0)
+         /\ stage' = "depths" /\ UNCHANGED <<sph, glob, frame, feats, done>>
 (* depth range: value-at-points surfaces only for area features (they are built from the polygon) *)
+HasPoints(k) == DepthKinds[k][1] = AtPoints \/ DepthKinds[k][2] = AtPoints
 Depths == /\ stage = "depths"
-          /\ \E k \in 1..Len(DepthKinds) :
-               LET dk == DepthKinds[k]  g == cur["gen poly"]
-                   lo == IF dk[1] = AtPoints THEN SurfaceOf(sph, g, 20 * Km, 40 * Km, "min") ELSE dk[1]
-                   hi == IF dk[2] = AtPoints THEN SurfaceOf(sph, g, 300 * Km, -120 * Km, "max") ELSE dk[2]
-               IN /\ (dk[1] = AtPoints \/ dk[2] = AtPoints) => g > 0
-                  /\ cur' = [x \in (DOMAIN cur) \ {"gen poly"} |-> cur[x]] @@ ("min depth" :> lo) @@ ("max depth" :> hi)
-          /\ stage' = "models" /\ UNCHANGED <<sph, glob, feats, done>>
-
-T == cur["model"]
-AddModel(key, cat) == /\ stage = "models" /\ Len(cur[key]) < 2
-                      /\ \E k \in 1..Len(cat) : cur' = [cur EXCEPT ![key] = Append(@, cat[k])]
-                      /\ UNCHANGED <<sph, glob, feats, stage, done>>
-AddT == AddModel("temperature models", TModels(sph, T))
-AddC == AddModel("composition models", CModels(sph, T))
-AddG == AddModel("grains models", GModels(sph, T))
-AddV == AddModel("velocity models", VModels(sph, T))
+          /\ \E k \in 1..Len(DepthKinds) : (HasPoints(k) => IsArea(cur.type)) /\ cur' = [cur EXCEPT !.dk = k]
+          /\ stage' = "models" /\ UNCHANGED <<sph, glob, frame, feats, done>>
+AddModel(key, n) == /\ stage = "models" /\ Len(cur[key]) < 2
+                    /\ \E k \in 1..n : cur' = [cur EXCEPT ![key] = Append(@, k)]
+                    /\ UNCHANGED <<sph, glob, frame, feats, stage, done>>
+AddT == AddModel("tm", Len(TModels(IdF(sph), cur.type)))
+AddC == AddModel("cm", Len(CModels(IdF(sph), cur.type)))
+AddG == AddModel("gm", Len(GModels(IdF(sph), cur.type)))
+AddV == AddModel("vm", Len(VModels(IdF(sph), cur.type)))
 Close == /\ stage = "models"
          /\ feats' = Append(feats, cur) /\ cur' = <<>> /\ stage' = "none"
-         /\ UNCHANGED <<sph, glob, done>>
-Finish == /\ stage = "none" /\ Len(feats) >= 1 /\ ~done /\ done' = TRUE /\ UNCHANGED <<sph, glob, feats, cur, stage>>
+         /\ UNCHANGED <<sph, glob, frame, done>>
+Finish == /\ stage = "none" /\ Len(feats) >= 1 /\ ~done /\ done' = TRUE /\ UNCHANGED <<sph, glob, frame, feats, cur, stage>>
 Next == Start \/ Depths \/ AddT \/ AddC \/ AddG \/ AddV \/ Close \/ Finish
+
+(*************************** rendering against a frame **********************)
+Models(cat, idx) == [i \in 1..Len(idx) |-> cat[idx[i]]]
+Render(f, a, k) ==
+  LET t == a.type
+      dkk == DepthKinds[a.dk]
+      lo == IF dkk[1] = AtPoints THEN SurfaceOf(f, a.g, 20 * Km, 40 * Km) ELSE dkk[1]
+      hi == IF dkk[2] = AtPoints THEN SurfaceOf(f, a.g, 300 * Km, -120 * Km) ELSE dkk[2]
+      common == ("model" :> t) @@ ("name" :> "f" \o ToString(k)) @@ ("min depth" :> lo) @@ ("max depth" :> hi)
+                @@ ("temperature models" :> Models(TModels(f, t), a.tm)) @@ ("composition models" :> Models(CModels(f, t), a.cm))
+                @@ ("grains models" :> Models(GModels(f, t), a.gm)) @@ ("velocity models" :> Models(VModels(f, t), a.vm))
+  IN CASE IsArea(t) -> common @@ ("coordinates" :> Pts(f, Polys[a.g]))
+       [] IsLine(t) -> common @@ ("coordinates" :> Pts(f, Trenches[a.g])) @@ ("dip point" :> XYg(f, DipPoints[a.dp])) @@ ("segments" :> SegSets[a.sg])
+       [] OTHER -> LET p == PlumeGeoms[a.g] IN
+                   common @@ ("coordinates" :> Pts(f, p.c)) @@ ("cross section depths" :> p.d) @@ ("semi-major axis" :> [i \in 1..Len(p.a) |-> U(f, p.a[i])])
+                          @@ ("eccentricity" :> p.e) @@ ("rotation angles" :> [i \in 1..Len(p.r) |-> Azimuth(f, p.r[i])])
 
 (*************************** the document and the probes ********************)
 HM == 1000 * Km
 RE == 6371000
-Doc == World(IF sph THEN Spherical("begin segment") ELSE Cartesian, feats) @@ Globals[glob]
+DocF(f) == World(IF sph THEN Spherical("begin segment") ELSE Cartesian, [k \in 1..Len(feats) |-> Render(f, feats[k], k)]) @@ Globals[glob]
+Doc == DocF(IdF(sph))
 
-(* a lattice that covers every geometry of the catalogues, plus every coordinate of the document's own geometry catalogues *)
-LatticeKm == {<<-400 + 175 * i, -400 + 185 * j>> : i \in 0..12, j \in 0..10}
-             \cup {Polys[g][i] : g \in 1..Len(Polys), i \in 1..3} \cup {Trenches[g][i] : g \in 1..Len(Trenches), i \in 1..2}
+(* a lattice that covers every geometry of the catalogues, plus coordinates of the geometry catalogues themselves *)
+GridKm == {<<-400 + 175 * i, -400 + 185 * j>> : i \in 0..12, j \in 0..10}
+LatticeKm == GridKm \cup {Polys[g][i] : g \in 1..Len(Polys), i \in 1..3} \cup {Trenches[g][i] : g \in 1..Len(Trenches), i \in 1..2}
              \cup {PolyInside[g] : g \in 1..Len(PolyInside)}
 DepthsM == <<0, 5 * Km, 35 * Km, 90 * Km, 150 * Km, 260 * Km, 420 * Km>>
 Row(p, d) == IF sph THEN <<RE - d, Rat(p[1], 100), Rat(p[2], 100), d>> ELSE <<p[1] * Km, p[2] * Km, HM - d, d>>
@@ -195,8 +210,8 @@ Rows == LET ps == SetToSeq(LatticeKm) IN
         FlattenSeq([k \in 1..Len(ps) |-> [i \in 1..Len(DepthsM) |-> Row(ps[k], DepthsM[i])]])
 AllProps == <<PT, PC(0), PC(1), PG(0, 2), PC(3), PTag, PV, PC(4), PC(5), PG(2, 1), PC(2)>>
 
-Shape == [k \in 1..Len(feats) |-> feats[k]["model"]]
-Id(kind) == <<"gen", kind, sph, glob, Shape, Len(feats)>>
+Shape == [k \in 1..Len(feats) |-> feats[k].type]
+Id(kind) == <<"gen", kind, sph, glob, frame, feats>>
 Labels(kind) == <<"gen", kind, IF sph THEN "spherical" ELSE "cartesian">>
 (* C13: every answer finite (the replay runs under the sanitizers and judges only that) *)
 FiniteB == [id |-> Id("finite"), labels |-> Labels("finite"),
@@ -211,17 +226,32 @@ PurityB == [id |-> Id("purity"), labels |-> Labels("purity"),
 CullB == [id |-> Id("culling"), labels |-> Labels("culling"),
           steps |-> << [op |-> "create", h |-> 1, wb |-> Doc, expect |-> "any"], [op |-> "create", h |-> 2, wb |-> Doc, expect |-> "any", culling |-> FALSE],
                        [op |-> "qtable", h |-> 1, h2 |-> 2, dim |-> 3, sph |-> sph, props |-> AllProps, may_throw |-> TRUE, rows |-> Rows] >>]
-
 (* C16: the same document built through the C interface answers every batched request bit for bit like the World *)
 WrapperB == [id |-> Id("wrapper"), labels |-> Labels("wrapper"),
              steps |-> << [op |-> "create", h |-> 1, wb |-> Doc, expect |-> "any"], [op |-> "create", h |-> 2, api |-> "c", wb |-> Doc, expect |-> "any"],
                           [op |-> "qtable", h |-> 1, h2 |-> 2, dim |-> 3, sph |-> sph, props |-> AllProps, may_throw |-> TRUE, rows |-> Rows],
                           [op |-> "release", h |-> 2] >>]
+(* C08: the document written against another frame answers the same at the moved points (temperature, compositions,
+   tag; vectors and orientations turn with the frame and are not compared).  Probes are the plain grid, not the
+   catalogue's own coordinates: on a boundary a rounding-size difference of the moved coordinates legitimately flips
+   the answer. *)
+MotionProps == <<PT, PC(0), PC(1), PC(3), PTag, PC(4), PC(5), PC(2)>>
+MRow(f, p, d) == IF sph THEN <<RE - d, Rat(p[1], 100), Rat(p[2], 100), d, RE - d, Rat(p[1] + 100 * f.dlon, 100), Rat(p[2], 100)>>
+                 ELSE LET q == XYg(f, p) IN <<p[1] * Km, p[2] * Km, HM - d, d, q[1], q[2], HM - d>>
+MRows(f) == LET ps == SetToSeq(GridKm) IN
+            FlattenSeq([k \in 1..Len(ps) |-> [i \in 1..Len(DepthsM) |-> MRow(f, ps[k], DepthsM[i])]])
+MotionB == LET f == Frames(sph)[frame] IN
+           [id |-> Id("motion"), labels |-> Labels("motion"),
+            steps |-> << [op |-> "create", h |-> 1, wb |-> Doc, expect |-> "any"], [op |-> "create", h |-> 2, wb |-> DocF(f), expect |-> "any"],
+                         [op |-> "qtable", h |-> 1, h2 |-> 2, dim |-> 3, sph |-> sph, props |-> MotionProps, pos2 |-> <<4, 5, 6>>,
+                          twinrel |-> Dec(1, -6), twinabs |-> Dec(1, -3), jitter |-> Dec(1, -7), rows |-> MRows(f)] >>]
 
-Emit == ~done \/ (PrintT(<<"B", ToJson(FiniteB)>>) /\ PrintT(<<"B", ToJson(PurityB)>>) /\ PrintT(<<"B", ToJson(CullB)>>) /\ PrintT(<<"B", ToJson(WrapperB)>>))
+Emit == ~done \/ (PrintT(<<"B", ToJson(FiniteB)>>) /\ PrintT(<<"B", ToJson(PurityB)>>) /\ PrintT(<<"B", ToJson(CullB)>>)
+                  /\ PrintT(<<"B", ToJson(WrapperB)>>) /\ PrintT(<<"B", ToJson(MotionB)>>))
 
-(* the machine only ever appends well-formed features *)
-WellFormed == \A k \in 1..Len(feats) : /\ feats[k]["model"] \in {Types[i] : i \in 1..Len(Types)}
-                                       /\ "min depth" \in DOMAIN feats[k] /\ "max depth" \in DOMAIN feats[k]
-                                       /\ "gen poly" \notin DOMAIN feats[k]
+(* the machine only ever appends well-formed features; the frames are rigid *)
+WellFormed == /\ \A k \in 1..Len(feats) : /\ feats[k].type \in {Types[i] : i \in 1..Len(Types)}
+                                          /\ (HasPoints(feats[k].dk) => IsArea(feats[k].type))
+                                          /\ \A i \in 1..Len(feats[k].tm) : feats[k].tm[i] <= Len(TModels(IdF(sph), feats[k].type))
+              /\ \A f \in {Frames(FALSE)[i] : i \in 1..3} : f.c * f.c + f.s * f.s = f.n * f.n
 =============================================================================
